@@ -341,19 +341,21 @@ def r5_collections(ctx, nf) -> None:
             pb = [p_ for p_ in td["params"] if p_["tp"] == "Type"]
             need_copy = any(p_.get("b") == "C" for p_ in pb)
             if need_copy:
-                g = CFG(real_body(init))
-                raises = [n for n, s in g.stmt.items() if isinstance(s, ast.Raise) and "ValueError" in u(s)]
-                stores = [n for n, s in g.stmt.items() if isinstance(s, ast.Assign) and u(s.targets[0]) == "self.args"]
-                dom = g.dominators()
-                guard_ok = False
-                for r in raises:
-                    tests = [d for d in dom[r] if g.kind.get(d) == "test"]
-                    for t in tests:
-                        tt = g.stmt[t]
-                        if _is_copyable_test(tt, [a.arg for a in init.args.args[1:]]):
-                            # the store must not be reachable while avoiding the test
-                            if stores and all(s not in g.reachable(0, avoid={t}) for s in stores) and g.label.get((t, _succ_towards(g, t, r))) == _raise_label(tt):
-                                guard_ok = True
+                # path summaries of the constructor: the arguments are stored only on paths where the element's bound was
+                # compared with Copyable and found equal; the other outcome raises ValueError
+                iparams = [a.arg for a in init.args.args[1:]]
+                ps = ctx.paths(f"{c.qualname}.__init__")
+                storing = [p for p in ps if p.kind != "raise" and any(isinstance(e, ast.Assign) and u(e.targets[0]) == "self.args" for e in p.effects)]
+                guard_ok = bool(storing)
+                refused = False
+                for p in ps:
+                    ct = [(t, k) for t, k in p.tests if _is_copyable_test(t, iparams)]
+                    if p in storing:
+                        guard_ok = guard_ok and bool(ct) and all(k == (_raise_label(t) == "F") for t, k in ct)
+                    elif p.kind == "raise" and p.value is not None and "ValueError" in u(p.value) and ct and all(k == (_raise_label(t) == "T") for t, k in ct):
+                        refused = True
+                        guard_ok = guard_ok and not any(isinstance(e, ast.Assign) and u(e.targets[0]) == "self.args" for e in p.effects)
+                guard_ok = guard_ok and refused
                 ctx.check(guard_ok, "C07.R5", f"{c.qualname}: rejects linear elements", mod.path, init.lineno,
                           f"{cname}'s definition requires copyable elements (parameter bound C, explicit bound {want}): the constructor must raise "
                           "ValueError for a non-copyable element before storing the arguments", init, detail="ValueError guard dominates self.args = ...")
